@@ -399,3 +399,114 @@ def generate():
             "steps": steps, "iters": iters, "cmd": (nocase, o_ok, q_ok), "set_all_ok": setall_ok, "print_ok": print_ok,
             "decoder_text": dec_txt, "unknown_stages": [s for s in stages if s.startswith("StUnknown")],
             "unknown_steps": [s for s in steps if "?? " in s or '"?' in s]}
+
+
+# ====================================================================== of_peep.c rule tables
+
+POPS = ["OpNone", "OpPlus", "OpMinus", "OpTimes", "OpDivide", "OpDivRem", "OpGCD", "OpEQ", "OpNE", "OpLT", "OpLE",
+        "OpFPlus", "OpFMinus", "OpFTimes", "OpFDivide", "OpFEQ", "OpFNE", "OpFLT", "OpFLE", "OpFNeg", "OpFIsZero",
+        "OpFIsNeg", "OpFIsPos", "OpNeg", "OpNext", "OpPrev", "OpIsZero", "OpIsNeg", "OpIsPos", "OpZero", "OpOne",
+        "OpMOne", "OpTrue", "OpFalse", "OpNonZero", "OpNonNeg", "OpNonPos", "OpId"]
+FTY = {"FOAM_Char": "FChar", "FOAM_Bool": "FBool", "FOAM_SInt": "FSInt", "FOAM_HInt": "FHInt", "FOAM_Byte": "FByte",
+       "FOAM_SFlo": "FSFlo", "FOAM_DFlo": "FDFlo", "FOAM_BInt": "FBInt", "FOAM_Word": "FWord", "FOAM_Nil": "FNil"}
+
+
+def pop(s):
+    s = s.strip()
+    return s if s in POPS else "(OpUnknown %s)" % q(s)
+
+
+def generate_peep():
+    src = open(C.SRC + "/of_peep.c").read()
+    src = re.sub(r"/\*.*?\*/", "", src, flags=re.S)
+    m = re.search(r"enum\s+bvalOp\s*\{(.*?)\}", src, re.S)
+    if not m:
+        raise Shape("of_peep.c: enum bvalOp not found")
+    enum = [x.strip() for x in m.group(1).split(",") if x.strip()]
+
+    def bvals(name):
+        m = re.search(r"static\s+FoamBVals\s+%s\s*\[\s*\]\s*=\s*\{(.*?)\n\};" % name, src, re.S)
+        if not m:
+            raise Shape("of_peep.c: table %s not found" % name)
+        rows = re.findall(r"\{\s*(\w+)\s*,\s*(\w+)\s*,\s*(\w+)\s*\}", m.group(1))
+        n_init = len(re.findall(r"\{", m.group(1)))
+        if n_init != len(rows) or not rows or rows[-1][0] != "FOAM_BVAL_LIMIT":
+            raise Shape("of_peep.c: %s: %d initialisers, %d understood / no sentinel" % (name, n_init, len(rows)))
+        out = []
+        for f, t, p in rows[:-1]:
+            if not f.startswith("FOAM_BVal_"):
+                raise Shape("of_peep.c: %s: odd row %s" % (name, f))
+            out.append("mkBv %s %s %s" % (q(f[len("FOAM_BVal_"):]), FTY.get(t, "FOther"), pop(p)))
+        return out
+    fast, slow = bvals("foamBValOpInfoTableFast"), bvals("foamBValOpInfoTableSlow")
+    m = re.search(r"BValOps\s+peepBValOpInfo\s*\[\s*\]\s*=\s*\{(.*?)\n\};", src, re.S)
+    if not m:
+        raise Shape("of_peep.c: peepBValOpInfo not found")
+    rows = re.findall(r"\{\s*(-?\w+)\s*,\s*(\d+)\s*,\s*(\w+)\s*,\s*(\w+)\s*,\s*(\w+)\s*,\s*(\w+)\s*,\s*(\w+)\s*,\s*(\w+)\s*\}", m.group(1))
+    n_init = len(re.findall(r"\{", m.group(1)))
+    if n_init != len(rows) or rows[-1][0] != "-1":
+        raise Shape("of_peep.c: peepBValOpInfo: %d initialisers, %d understood / no sentinel" % (n_init, len(rows)))
+    ops = []
+    indexed = True
+    for i, r in enumerate(rows[:-1]):
+        if i >= len(enum) or enum[i] != r[0]:
+            indexed = False     # peepBValOpInfo[bop].op == bop is asserted by the C
+        ops.append("mkOp %s %s %s" % (pop(r[0]), r[1], " ".join(pop(x) for x in r[2:])))
+    sel = bool(re.search(r"if\s*\(foldfloats\)\s*peepBValTbl\s*=\s*&foamBValOpInfoTableFast\[0\];\s*else\s+peepBValTbl\s*=\s*&foamBValOpInfoTableSlow\[0\];", src))
+    guard = bool(re.search(r"#define\s+peepNoSideFx\(foam\)\s*\(!foamHasSideEffect\(foam\)\)", open(C.SRC + "/of_peep.c").read()))
+    L = ["(* GENERATED on every run by tools/c02_gen.py from <repo>/aldor/aldor/src/of_peep.c - do not edit *)",
+         "Require Import ZArith List String.", "Require Import AV.Builtins.CInt AV.Opt.PeepCtl.", "Import ListNotations.",
+         "Local Open Scope string_scope.", "Local Open Scope Z_scope.", "",
+         "(* foamBValOpInfoTableFast (used when floats may be folded) / Slow *)",
+         "Definition peep_bvals_fast : list bvrow := [\n  %s\n]." % ";\n  ".join(fast),
+         "Definition peep_bvals_slow : list bvrow := [\n  %s\n]." % ";\n  ".join(slow),
+         "(* peepBValOpInfo:   op arity dual l=r l=1 r=1 l=0 r=0 *)",
+         "Definition peep_ops : list oprow := [\n  %s\n]." % ";\n  ".join(ops),
+         "(* the rows stand at the index of their enum value (the C indexes the table by it) *)",
+         "Definition peep_ops_indexed : bool := %s." % ("true" if indexed else "false"),
+         "(* peepProg selects Fast iff foldfloats; peepNoSideFx(x) is !foamHasSideEffect(x) *)",
+         "Definition peep_table_selection : bool := %s." % ("true" if sel else "false"),
+         "Definition peep_guard_is_has_side_effect : bool := %s." % ("true" if guard else "false")]
+    C.write_if_changed(C.COQ + "/Gen/PeepTbl.v", "\n".join(L) + "\n")
+    return {"fast": len(fast), "slow": len(slow), "ops": len(ops), "indexed": indexed}
+
+
+# ====================================================================== of_cfold.c guards
+
+def generate_cfold_guards():
+    """Which cases of cfoldBCall start with `if (!cfoldFoldAll) break;` / `if (!cfoldFoldFloat) break;`
+    (the rows themselves are b-c04's Gen/Builtins.v), and the argument test in front of the switch."""
+    src = re.sub(r"/\*.*?\*/", "", open(C.SRC + "/of_cfold.c").read(), flags=re.S)
+    m = re.search(r"\ncfoldBCall\(Foam bcall\)\s*\{(.*?)\n\}\n", src, re.S)
+    if not m:
+        raise Shape("of_cfold.c: cfoldBCall not found")
+    body = m.group(1)
+    allconst = bool(re.search(r"for\s*\(i=0;\s*i\s*<\s*nargs;\s*i\+\+\)\s*if\s*\(!cfoldIsConst\(argv\[i\]\)\)\s*return bcall;\s*switch\s*\(tag\)", body))
+    ga, gf, other = [], [], []
+    for mm in re.finditer(r"((?:case\s+FOAM_BVal_\w+\s*:\s*)+)(.*?)(?=case\s+FOAM_BVal_|default\s*:)", body, re.S):
+        names = re.findall(r"FOAM_BVal_(\w+)", mm.group(1))
+        first = mm.group(2).strip()
+        if first.startswith("{"):
+            first = first[1:].strip()
+        if re.match(r"if\s*\(!cfoldFoldAll\)\s*break;", first):
+            ga += names
+        elif re.match(r"if\s*\(!cfoldFoldFloat\)\s*break;", first):
+            gf += names
+        else:
+            other += names
+    m = re.search(r"\ncfoldIsConst\(Foam foam\)\s*\{(.*?)\n\}\n", src, re.S)
+    data_const = bool(m and re.search(r"if\s*\(tag >= FOAM_DATA_START && tag < FOAM_DATA_LIMIT\)\s*return true;", m.group(1)))
+    L = ["(* GENERATED on every run by tools/c02_gen.py from <repo>/aldor/aldor/src/of_cfold.c - do not edit *)",
+         "Require Import List String.", "Import ListNotations.", "Local Open Scope string_scope.", "",
+         "(* cfoldBCall returns the call unchanged unless every argument satisfies cfoldIsConst *)",
+         "Definition cfold_needs_const_args : bool := %s." % ("true" if allconst else "false"),
+         "(* cfoldIsConst: every data node is a constant *)",
+         "Definition cfold_data_is_const : bool := %s." % ("true" if data_const else "false"),
+         "(* cases that start with `if (!cfoldFoldAll) break;` *)",
+         "Definition cfold_guard_all : list string := [%s]." % "; ".join(q(n) for n in ga),
+         "(* cases that start with `if (!cfoldFoldFloat) break;` *)",
+         "Definition cfold_guard_float : list string := [%s]." % "; ".join(q(n) for n in gf),
+         "(* cases with another first statement *)",
+         "Definition cfold_guard_other : list string := [%s]." % "; ".join(q(n) for n in other)]
+    C.write_if_changed(C.COQ + "/Gen/CfoldGuards.v", "\n".join(L) + "\n")
+    return {"all": len(ga), "float": len(gf), "other": other}
